@@ -23,10 +23,14 @@ func genXzStream(rng *rand.Rand, dp *DriverPool, maxOps int) (stream, content []
 	var dk []string
 	for b := 0; b < nblocks; b++ {
 		dc := rng.Intn(8) // 4 KiB … 48 KiB windows keep edge distances reachable
+		bigDict := rng.Intn(40) == 0 // a declared dictionary above the reader's 8 MiB default (the generator still keeps distances small)
 		if rng.Intn(4) == 0 {
 			dc = 8 + rng.Intn(12)
 		}
 		g := &opGen{rng: rng, dictSize: int(specDictSize(dc))}
+		if bigDict {
+			dc = 25 + rng.Intn(4) // 12 … 32 MiB declared; operations stay within the window chosen above
+		}
 		nch := rng.Intn(6)
 		if rng.Intn(5) == 0 {
 			nch = 0 // empty block: just the end marker
